@@ -23,7 +23,9 @@ fn record_text(i: usize, seq: &[u8], fastq: bool, wrap: usize, eol: &str) -> Vec
         t.extend(format!("@r{}{}{}", i, desc, eol).bytes());
         t.extend(seq); t.extend(eol.bytes());
         t.extend(format!("+{}", eol).bytes());
-        t.extend(std::iter::repeat(b'I').take(seq.len())); t.extend(eol.bytes());
+        // quality lines may start with '@' or '+' (Illumina's @@@FFFFF...), which must not be taken for record markers
+        let first = [b'I', b'@', b'+', b'F'][i % 4];
+        t.extend(std::iter::once(first).chain(std::iter::repeat(b'I')).take(seq.len())); t.extend(eol.bytes());
     } else {
         t.extend(format!(">r{}{}{}", i, desc, eol).bytes());
         if wrap == 0 { t.extend(seq); t.extend(eol.bytes()); }
